@@ -209,3 +209,112 @@ package gtfs
 //@   requires csvOK(csv)
 //@   loop 1 invariant csvOK(csv)
 //@   loop 1 decreases remaining(csv.csvReader)
+
+// ----------------------------------------------------------------------------------------------------------------
+// C13 — hashing. Ghost vocabulary (provided by the VC generator, see /verif/engine/extras.go):
+//   stream()      the sequence of tokens emitted so far, a free algebraic datatype
+//                 Stream ::= snil | sfix(prev, typeTag, value) | sraw(prev, string)
+//   pending()     true iff fixed-width tokens are still in the hasher's buffer (not yet flushed to the hash)
+//   tok(L, x)     L followed by the fixed-width token of the Go value x (the tag is x's static type)
+//   rawtok(L, s)  L followed by the raw bytes of s
+// Because Stream is a free datatype, equal streams have equal tokens in equal positions; the step from equal
+// bytes to equal tokens is the unique-parse argument of DESIGN.md §4 C13 (length prefixes, presence flags, count).
+
+//@ pure func strTok(L Stream, s string) Stream = rawtok(tok(L, uint64(len(s))), s)
+//@ pure func strPtrTok(L Stream, a *string) Stream = a == nil ? tok(L, true) : strTok(tok(L, false), *a)
+//@ pure func numPtrTok(L Stream, a ?) Stream = a == nil ? tok(L, true) : tok(tok(L, false), *a)
+//@ pure func timePtrTok(L Stream, t *time.Time) Stream = t == nil ? tok(L, true) : tok(tok(L, false), int64(unix(*t)))
+//@ pure func delayTok(L Stream, d *time.Duration) Stream = d == nil ? tok(L, true) : tok(tok(L, false), int64(*d))
+//@ pure func evTokens(L Stream, e *StopTimeEvent) Stream = e == nil ? tok(L, true) : numPtrTok(delayTok(timePtrTok(tok(L, false), e.Time), e.Delay), e.Uncertainty)
+//@ pure func stuPrefix(L Stream, u StopTimeUpdate) Stream = tok(strPtrTok(strPtrTok(numPtrTok(L, u.StopSequence), u.StopID), u.NyctTrack), u.ScheduleRelationship)
+//@ pure func stuTokens(L Stream, u StopTimeUpdate) Stream = evTokens(evTokens(stuPrefix(L, u), u.Arrival), u.Departure)
+//@ pure func tripHeader(L Stream, t *Trip) Stream = tok(tok(tok(tok(tok(tok(tok(strTok(strTok(L, t.ID.ID), t.ID.RouteID), t.ID.DirectionID), t.ID.HasStartDate), int64(unix(t.ID.StartDate))), t.ID.HasStartTime), t.ID.StartTime), int64(len(t.StopTimeUpdates))), t.ID.ScheduleRelationship)
+
+//@ func (*hasher).number
+//@   inline
+
+//@ func (*hasher).flush
+//@   props C13 C05
+//@   requires h != nil && h.h != nil
+//@   ensures [stream-unchanged] stream() == old(stream())
+//@   ensures [buffer-empty] !pending()
+
+//@ func (*hasher).string
+//@   props C13 C05
+//@   requires h != nil && h.h != nil
+//@   ensures [length-prefixed] stream() == strTok(old(stream()), s)
+//@   ensures [flushed] !pending()
+//@   canary [must-fail] stream() == rawtok(old(stream()), s)
+
+//@ func (*hasher).stringPtr
+//@   props C13 C05
+//@   requires h != nil && h.h != nil
+//@   ensures [presence-flag-then-value] stream() == strPtrTok(old(stream()), a)
+
+//@ func hashNumberPtr
+//@   props C13 C05
+//@   requires h != nil
+//@   ensures [presence-flag-then-value] stream() == numPtrTok(old(stream()), a)
+//@   canary [must-fail] a != nil ==> stream() == tok(old(stream()), *a)
+
+//@ func (*hasher).timePtr
+//@   props C13 C05
+//@   requires h != nil
+//@   ensures [unix-seconds] stream() == timePtrTok(old(stream()), t)
+
+//@ func (*hasher).trip
+//@   props C13 C05
+//@   requires h != nil && h.h != nil && t != nil
+//@   loop 1 entry stream() == tripHeader(old(stream()), t)
+//@   loop 1 step stream() == stuTokens(athead(1, stream()), t.StopTimeUpdates[athead(1, $i)])
+//@   loop 2 invariant stream() == ($i == 0 ? stuPrefix(athead(1, stream()), t.StopTimeUpdates[athead(1, $i)]) : ($i == 1 ? evTokens(stuPrefix(athead(1, stream()), t.StopTimeUpdates[athead(1, $i)]), t.StopTimeUpdates[athead(1, $i)].Arrival) : stuTokens(athead(1, stream()), t.StopTimeUpdates[athead(1, $i)])))
+//@   ensures [nothing-after-the-loop] stream() == athead(1, stream())
+
+//@ func (*Trip).Hash
+//@   props C13 C05
+//@   requires t != nil && h != nil
+//@   ensures [only-the-trip] stream() == atcall("(*hasher).trip", 1, stream())
+//@   ensures [starts-empty] precall("(*hasher).trip", 1, stream()) == old(stream()) && !precall("(*hasher).trip", 1, pending())
+//@   ensures [flushed] !pending()
+
+//@ pure func vehIDTok(L Stream, v *Vehicle) Stream = v.ID == nil ? tok(L, true) : strTok(strTok(strTok(tok(L, false), v.ID.ID), v.ID.Label), v.ID.LicensePlate)
+//@ pure func posTok(L Stream, p *Position) Stream = p == nil ? tok(L, true) : numPtrTok(numPtrTok(numPtrTok(numPtrTok(numPtrTok(tok(L, false), p.Latitude), p.Longitude), p.Bearing), p.Odometer), p.Speed)
+//@ pure func vehTail(L Stream, v *Vehicle) Stream = numPtrTok(numPtrTok(tok(timePtrTok(numPtrTok(strPtrTok(numPtrTok(posTok(L, v.Position), v.CurrentStopSequence), v.StopID), v.CurrentStatus), v.Timestamp), v.CongestionLevel), v.OccupancyStatus), v.OccupancyPercentage)
+
+//@ func (*hasher).vehicle
+//@   props C13 C05
+//@   requires h != nil && h.h != nil && v != nil
+//@   ensures [no-trip] v.Trip == nil ==> stream() == vehTail(tok(vehIDTok(old(stream()), v), true), v)
+//@   ensures [trip-flag] v.Trip != nil ==> precall("(*hasher).trip", 1, stream()) == tok(vehIDTok(old(stream()), v), false)
+//@   ensures [with-trip] v.Trip != nil ==> stream() == vehTail(atcall("(*hasher).trip", 1, stream()), v)
+
+//@ func (*Vehicle).Hash
+//@   props C13 C05
+//@   requires v != nil && h != nil
+//@   ensures [only-the-vehicle] stream() == atcall("(*hasher).vehicle", 1, stream())
+//@   ensures [starts-empty] precall("(*hasher).vehicle", 1, stream()) == old(stream()) && !precall("(*hasher).vehicle", 1, pending())
+//@   ensures [flushed] !pending()
+
+// Injectivity of the encoding, token level (all machine-checked). Each lemma also returns the equality of the
+// preceding streams, which is what the induction over the stop time updates needs.
+//@ pure func sameStrPtr(a *string, b *string) bool = (a == nil <==> b == nil) && (a != nil ==> *a == *b)
+//@ pure func sameU32Ptr(a *uint32, b *uint32) bool = (a == nil <==> b == nil) && (a != nil ==> *a == *b)
+//@ pure func sameI32Ptr(a *int32, b *int32) bool = (a == nil <==> b == nil) && (a != nil ==> *a == *b)
+//@ pure func sameTimePtr(a *time.Time, b *time.Time) bool = (a == nil <==> b == nil) && (a != nil ==> unix(*a) == unix(*b))
+//@ pure func sameDelay(a *time.Duration, b *time.Duration) bool = (a == nil <==> b == nil) && (a != nil ==> *a == *b)
+//@ pure func sameEvent(a *StopTimeEvent, b *StopTimeEvent) bool = (a == nil <==> b == nil) && (a != nil ==> sameTimePtr(a.Time, b.Time) && sameDelay(a.Delay, b.Delay) && sameI32Ptr(a.Uncertainty, b.Uncertainty))
+//@ pure func sameStu(a StopTimeUpdate, b StopTimeUpdate) bool = sameU32Ptr(a.StopSequence, b.StopSequence) && sameStrPtr(a.StopID, b.StopID) && sameStrPtr(a.NyctTrack, b.NyctTrack) && a.ScheduleRelationship == b.ScheduleRelationship && sameEvent(a.Arrival, b.Arrival) && sameEvent(a.Departure, b.Departure)
+//@ pure func sameTripID(a *Trip, b *Trip) bool = a.ID.ID == b.ID.ID && a.ID.RouteID == b.ID.RouteID && a.ID.DirectionID == b.ID.DirectionID && a.ID.HasStartDate == b.ID.HasStartDate && unix(a.ID.StartDate) == unix(b.ID.StartDate) && a.ID.HasStartTime == b.ID.HasStartTime && a.ID.StartTime == b.ID.StartTime && a.ID.ScheduleRelationship == b.ID.ScheduleRelationship
+
+//@ lemma hash_string_injective C13 : forall L1 Stream, L2 Stream, s1 string, s2 string :: strTok(L1, s1) == strTok(L2, s2) ==> L1 == L2 && s1 == s2
+//@ lemma hash_strptr_injective C13 : forall L1 Stream, L2 Stream, a *string, b *string :: strPtrTok(L1, a) == strPtrTok(L2, b) ==> L1 == L2 && sameStrPtr(a, b)
+// (for a single event the preceding streams must be given equal: [L,true] and [L',false,true,true,true] coincide
+// for L = [L',false,true,true]; inside a stop time update the ScheduleRelationship token rules that out)
+//@ lemma hash_event_injective C13 : forall L Stream, a *StopTimeEvent, b *StopTimeEvent :: evTokens(L, a) == evTokens(L, b) ==> sameEvent(a, b)
+//@ canarylemma hash_event_needs_same_prefix_must_fail C13 : forall L1 Stream, L2 Stream, a *StopTimeEvent, b *StopTimeEvent :: evTokens(L1, a) == evTokens(L2, b) ==> sameEvent(a, b)
+//@ lemma hash_stu_injective C13 : forall L1 Stream, L2 Stream, a StopTimeUpdate, b StopTimeUpdate :: stuTokens(L1, a) == stuTokens(L2, b) ==> L1 == L2 && sameStu(a, b)
+//@ lemma hash_stu_functional C13 : forall L Stream, a StopTimeUpdate, b StopTimeUpdate :: sameStu(a, b) ==> stuTokens(L, a) == stuTokens(L, b)
+//@ lemma hash_header_injective C13 : forall L1 Stream, L2 Stream, a *Trip, b *Trip :: tripHeader(L1, a) == tripHeader(L2, b) ==> L1 == L2 && sameTripID(a, b) && len(a.StopTimeUpdates) == len(b.StopTimeUpdates)
+//@ lemma hash_header_functional C13 : forall L Stream, a *Trip, b *Trip :: sameTripID(a, b) && len(a.StopTimeUpdates) == len(b.StopTimeUpdates) ==> tripHeader(L, a) == tripHeader(L, b)
+//@ canarylemma hash_nil_vs_zero_must_fail C13 : forall L Stream, a *uint32, b *uint32 :: a == nil && b != nil && *b == 0 ==> numPtrTok(L, a) == numPtrTok(L, b)
+//@ canarylemma hash_boundary_shift_must_fail C13 : forall L Stream :: strTok(strTok(L, "ab"), "c") == strTok(strTok(L, "a"), "bc")
